@@ -103,6 +103,16 @@ def frame_obligations(it, fr, contract, exceptional, tag, line):
         try:
             it.heap_override = fr.entry_heap
             env = Env(contract.module, dict(fr.entry_env))
+            if isinstance(expr, ast.Attribute):
+                owner0 = it.ev(expr.value, env)
+                if isinstance(owner0, VRef) and isinstance(fr.entry_heap[owner0.addr].cls, ClassInfo):
+                    vw = registry_view(it, fr.entry_heap[owner0.addr].cls, expr.attr)
+                    if vw is not None:
+                        # a derived view: what may change is the state it is computed from
+                        backing = it.getattr(owner0, "repo")
+                        if isinstance(backing, VRef):
+                            allowed_cells.add(backing.addr)
+                        continue
             ref = it.ev(expr, env)
             if isinstance(ref, VRef):
                 allowed_cells.add(ref.addr)
@@ -154,6 +164,10 @@ def frame_obligations(it, fr, contract, exceptional, tag, line):
     if diffs:
         goal = z3.And([d for _, d in diffs])
         it.path.oblige(f"{fr.qualname}#frame@{tag}", goal, line=line, kind="frame", note=",".join(n for n, _ in diffs))
+
+
+def registry_view(it, cls, name):
+    return it.registry.view_for(cls, name)
 
 
 def run_path(repo, registry, func: VFunc, contract, prefix, feas_ms):
@@ -324,7 +338,7 @@ def verify_function(repo, registry, qualname, feas_ms=1500, solve_now=True, z3_m
     rep = FunctionReport(qualname)
     t0 = time.time()
     contract = registry.contracts[qualname]
-    module, cls, node = repo.lookup(qualname)
+    module, cls, node = repo.lookup(qualname.split("@")[0])
     if node is None:
         rep.errors.append(f"target {qualname} not found in the repository source")
         return rep
